@@ -579,6 +579,7 @@ func runCheck(id, tier string) int {
 	}
 	sort.Strings(sigs)
 	nviol := 0
+	replayTrouble := 0
 	var knownLines []string
 	for _, sig := range sigs {
 		vr := a.viol[sig]
@@ -607,12 +608,19 @@ func runCheck(id, tier string) int {
 		}
 		path, herr := minimiseAndWrite(vbin, p, vr, tmp)
 		if herr != nil {
+			// one signature that does not replay must not take away the verdict
+			// of the others: reported, and exit 2 only if nothing else was found
 			fmt.Fprintf(os.Stderr, "HARNESS: %v\n", herr)
-			return 2
+			replayTrouble++
+			nviol--
+			continue
 		}
 		fmt.Printf("VIOLATION property=%s replay=%s\n", id, path)
 		fmt.Printf("  oracle=%s signature=%s\n  %s\n", vr.v.Oracle, sig, vr.v.Message)
 		exit = 1
+	}
+	if replayTrouble > 0 && exit == 0 && crashPath == "" {
+		return 2
 	}
 	if crashPath != "" {
 		nviol++
